@@ -4,8 +4,11 @@
    `trkc_step`): the subscriber callbacks may raise.
 
    reachable_any nattrs st : st is the state after ANY history, whatever the subscribers did -- also after operations
-   that were left by the exception of a subscriber (n_latest_tracks only needs the structural invariants, which every
-   state satisfies; Props/C13.v C13_structural_invariants).
+   that were left by the exception of a subscriber (Props/C13.v C13_invariants).  A history may contain
+   `tracker.stream_is_ordered = False` (OpUnordered): from then on timestamps may arrive out of order and n_latest_tracks
+   must sort.  Only this direction is modelled: a table kept sorted so far satisfies everything unordered mode needs,
+   whereas switching an unordered tracker to ordered asserts an order that nobody enforced -- the first n of such a table
+   are not its newest, and C14 does not quantify over such a tracker.
 
    mlu tr = (mmsi, last_updated).  sp_top_n n all r (Spec/TrackerSpec.v): r has min(n, |all|) elements with pairwise
    different MMSIs, all of them in `all`, and no element of `all` left out has a later last_updated than one in r. *)
@@ -63,3 +66,39 @@ Example C14_nonvacuous_raising :
   map (@tr_mmsi Z) (trk_n_latest_tracks (fst run) 1) = [333] /\
   map (@tr_mmsi Z) (trk_n_latest_tracks (fst run) 3) = [222; 333].
 Proof. vm_compute. repeat split. Qed.
+
+(* non-vacuity: a tracker built ordered and switched to unordered.  Before the switch an older timestamp is rejected;
+   after it the same update is accepted, the table is no longer sorted (333 at 3, 111 at 1 ... 222 at 2 behind them), and
+   n_latest_tracks sorts: the newest first. *)
+Example C14_nonvacuous_switched_to_unordered :
+  let q := @trk_env_quiet Z in
+  let h := [(q, OpUpdate 0 (mkMsg 111 [MPresent (Some 1)]) (Some 1));
+            (q, OpUpdate 0 (mkMsg 333 [MPresent (Some 3)]) (Some 3));
+            (q, OpUpdate 0 (mkMsg 222 [MPresent (Some 2)]) (Some 2));
+            (q, OpUnordered);
+            (q, OpUpdate 0 (mkMsg 222 [MPresent (Some 2)]) (Some 2))] in
+  let run := trkc_run 1 (trk_init None true) h in
+  map (@rc_exn Z) (snd run) = [None; None; Some (Py ValueError); None; None] /\
+  t_ordered (fst run) = false /\
+  map (@tr_mmsi Z) (trk_tracks (fst run)) = [111; 333; 222] /\
+  map (@tr_mmsi Z) (trk_n_latest_tracks (fst run) 2) = [333; 222] /\
+  map (@tr_mmsi Z) (trk_n_latest_tracks (fst run) 5) = [333; 222; 111].
+Proof. vm_compute. repeat split. Qed.
+
+(* non-vacuity: an ORDERED tracker fed through the public insert_or_update() with non-decreasing timestamps (the history
+   satisfies the caveat trkc_run_ok): the update of 111 moves it behind 222, the last n of the table are the newest *)
+Example C14_nonvacuous_insert_or_update :
+  let q := @trk_env_quiet Z in
+  let h := [(q, OpInsertOrUpdate 0 (mkMsg 111 [MPresent (Some 1)]) (Some 1));
+            (q, OpInsertOrUpdate 0 (mkMsg 222 [MPresent (Some 2)]) (Some 2));
+            (q, OpInsertOrUpdate 0 (mkMsg 111 [MPresent (Some 3)]) (Some 3))] in
+  let st := fst (trkc_run 1 (trk_init None true) h) in
+  trkc_run_ok 1 (trk_init None true) h /\
+  map (@tr_mmsi Z) (trk_tracks st) = [222; 111] /\
+  map (@tr_mmsi Z) (trk_n_latest_tracks st 1) = [111].
+Proof.
+  split; [|vm_compute; repeat split].
+  simpl. repeat match goal with |- env_ok _ /\ _ => split; [apply env_ok_quiet|] | |- _ /\ _ => split end; try exact Logic.I.
+  all: unfold out_of_order; intros (_ & k & tr & I & L); vm_compute in I;
+       repeat (destruct I as [I|I]; [inversion I; subst; vm_compute in L; discriminate|]); destruct I.
+Qed.
